@@ -48,6 +48,9 @@ tail = tail.replace('@@COST_TABLE@@', '\n'.join(rows))
 ct = open(f'{V}/tools/ctest_final.txt').read().strip() if os.path.exists(f'{V}/tools/ctest_final.txt') else 'see tools/ctest_final.txt'
 tail = tail.replace('@@CTEST@@', ct.replace('\n', '; '))
 d = open(f'{V}/DESIGN.md').read()
+nf = len(json.load(open(f'{V}/KNOWN_FINDINGS.json'))['findings'])
+ns = len(glob.glob(f'{V}/seeded/*/meta.json'))
+d = re.sub(r'found \d+ genuine defects', f'found {nf} genuine defects', d)
 a = d.index('## 5. ')
 b = d.index('## Appendix A')
 d = d[:a] + tail + '\n---------------------------------------------------------------------------\n\n' + d[b:]
